@@ -1154,6 +1154,14 @@ Theorem T02a_mcm_old_refuted_nested_return : exists b b' o,
 Proof. exact mcm_old_refuted_nested_return. Qed.
 Print Assumptions T02a_mcm_old_refuted_nested_return.
 
+(* not a congruence: the with block ends with the list in which it is introduced, the enclosing list may still use the
+   handle (F02abs-3) *)
+Theorem T02a_mcm_nested_refuted : exists p o,
+  mcm p = [SIf (ECall 0 []) [SWith 1 0 [SRead 2 1]] []; SRead 2 1] /\
+  fst (exec_block o st0 p) = Normal /\ fst (exec_block o st0 (mcm p)) = Exc XClosed.
+Proof. exact mcm_nested_refuted. Qed.
+Print Assumptions T02a_mcm_nested_refuted.
+
 Example T02a_mcm_example :
   mcm [SOpen 1 0; SRead 2 1; SClose 1; SExpr (ECall 0 [EName 2])] = [SWith 1 0 [SRead 2 1]; SExpr (ECall 0 [EName 2])]
   /\ mcm [SOpen 1 0; SOpen 3 1; SRead 2 1] = [SWith 1 0 [SWith 3 1 [SRead 2 1]]].
